@@ -25,7 +25,7 @@ CONSTANTS
   MaxObj = %d
   Caps = %s
 INVARIANTS FifoExactlyOnce Counters CapacityRespected EofFlag
-PROPERTIES EofExact NeverNullWhileQueued RefinesAbs
+PROPERTIES EofExact EofIffEmpty NeverNullWhileQueued RefinesAbs
 VIEW View
 ACTION_CONSTRAINT EdgeLog
 CONSTRAINT InitLog
